@@ -864,3 +864,34 @@ package xmpp
 //@     assert[C06] has(s.sentStanzas, id) && s.sentStanzas[id].stanzaName == start.Name && s.sentStanzas[id].ctx == ctx
 //@   ensures[C06] !has(s.sentStanzas, id)
 //@   ensures[C06] result1 != nil ==> result0 == nil
+
+// ---------------------------------------------------------------------------
+// C02: the stream tee forwards. Every Write hands exactly the caller's slice to
+// the underlying connection (directly, or through the multi-writer whose first
+// target is that connection), exactly once; every Read fills the caller's
+// slice from the underlying connection (directly or through the tee reader
+// built on it); the tee never substitutes a different connection.
+//@ func newTeeConn
+//@   callsite io.TeeReader#1
+//@     assert[C02] arg0 == c && arg1 == in
+//@   callsite io.MultiWriter#1
+//@     assert[C02] len(arg0) == 2 && arg0[0] == c && arg0[1] == out
+//@   ensures[C02] typeof(c) != teeConn ==> result.Conn == c && result.ctx == ctx
+//@ func (teeConn).Write
+//@   ghost writes int = 0
+//@   callsite (net.Conn).Write#*
+//@     assert[C02] arg0 == tc.Conn && arg1 == p && writes == 0
+//@     after: writes = writes + 1
+//@   callsite (io.Writer).Write#1
+//@     assert[C02] arg0 == tc.multiWriter && arg1 == p && writes == 0
+//@     after: writes = writes + 1
+//@   ensures[C02] writes == 1
+//@ func (teeConn).Read
+//@   ghost reads int = 0
+//@   callsite (net.Conn).Read#*
+//@     assert[C02] arg0 == tc.Conn && arg1 == p && reads == 0
+//@     after: reads = reads + 1
+//@   callsite (io.Reader).Read#1
+//@     assert[C02] arg0 == tc.teeReader && arg1 == p && reads == 0
+//@     after: reads = reads + 1
+//@   ensures[C02] reads == 1
